@@ -1,34 +1,116 @@
 /-
-  Lemmas for C12 (Colang 2.x part): the expansion model produces closed programs with fresh, distinct labels.
+  Lemmas for C12 (Colang 2.x part): the expansion model produces closed programs with fresh labels.
+  Part 1: the invariant and its algebra (append, constant pieces, checker clauses under append / context).
 -/
 import NemoVerif.Models.Expand
 import NemoVerif.Lemmas.Closed
 namespace NemoVerif.Expand
 open NemoVerif.Closed
 
-/-- `l` is one of the labels of the enclosing loop -/
-def InCb (cb : Option (Lbl × Lbl)) (l : Lbl) : Prop := ∃ b e, cb = some (b, e) ∧ (l = b ∨ l = e)
+/-! ### checker clauses: monotone in the context, compositional under append -/
 
-def Plain (e : Prim Lbl) : Prop :=
-  (∀ u, e ≠ .merge u) ∧ (∀ n, e ≠ .beginScope n) ∧ (∀ n, e ≠ .endScope n)
+theorem mergeForkOK_mono : ∀ (p : List (Prim Lbl)) (s s' : List Lbl), (∀ x ∈ s, x ∈ s') →
+    mergeForkOK s p = true → mergeForkOK s' p = true := by
+  intro p
+  induction p with
+  | nil => intro s s' _ _; rfl
+  | cons e r ih =>
+    intro s s' hs h
+    cases e with
+    | fork u ls =>
+      simp only [mergeForkOK] at h ⊢
+      exact ih (u :: s) (u :: s') (by intro x hx; rcases List.mem_cons.1 hx with hx | hx; exact hx ▸ List.mem_cons_self; exact List.mem_cons_of_mem _ (hs x hx)) h
+    | merge u =>
+      simp only [mergeForkOK, Bool.and_eq_true, List.contains_iff_mem] at h ⊢
+      exact ⟨hs u h.1, ih s s' hs h.2⟩
+    | _ => simp only [mergeForkOK] at h ⊢; exact ih s s' hs h
 
-/-- invariant of `expand cb ss c = r` -/
-structure Inv (cb : Option (Lbl × Lbl)) (c : Nat) (r : List (Prim Lbl) × Nat) : Prop where
+theorem mergeForkOK_append : ∀ (a b : List (Prim Lbl)) (s : List Lbl),
+    mergeForkOK s a = true → mergeForkOK s b = true → mergeForkOK s (a ++ b) = true := by
+  intro a
+  induction a with
+  | nil => intro b s _ hb; exact hb
+  | cons e r ih =>
+    intro b s ha hb
+    cases e with
+    | fork u ls =>
+      simp only [List.cons_append, mergeForkOK] at ha ⊢
+      exact ih b (u :: s) ha (mergeForkOK_mono b s (u :: s) (fun x hx => List.mem_cons_of_mem _ hx) hb)
+    | merge u =>
+      simp only [List.cons_append, mergeForkOK, Bool.and_eq_true] at ha ⊢
+      exact ⟨ha.1, ih b s ha.2 hb⟩
+    | _ => simp only [List.cons_append, mergeForkOK] at ha ⊢; exact ih b s ha hb
+
+theorem scopeOpenedOK_mono : ∀ (p : List (Prim Lbl)) (s s' : List Lbl), (∀ x ∈ s, x ∈ s') →
+    scopeOpenedOK s p = true → scopeOpenedOK s' p = true := by
+  intro p
+  induction p with
+  | nil => intro s s' _ _; rfl
+  | cons e r ih =>
+    intro s s' hs h
+    cases e with
+    | beginScope u =>
+      simp only [scopeOpenedOK] at h ⊢
+      exact ih (u :: s) (u :: s') (by intro x hx; rcases List.mem_cons.1 hx with hx | hx; exact hx ▸ List.mem_cons_self; exact List.mem_cons_of_mem _ (hs x hx)) h
+    | endScope u =>
+      simp only [scopeOpenedOK, Bool.and_eq_true, List.contains_iff_mem] at h ⊢
+      exact ⟨hs u h.1, ih s s' hs h.2⟩
+    | _ => simp only [scopeOpenedOK] at h ⊢; exact ih s s' hs h
+
+theorem scopeOpenedOK_append : ∀ (a b : List (Prim Lbl)) (s : List Lbl),
+    scopeOpenedOK s a = true → scopeOpenedOK s b = true → scopeOpenedOK s (a ++ b) = true := by
+  intro a
+  induction a with
+  | nil => intro b s _ hb; exact hb
+  | cons e r ih =>
+    intro b s ha hb
+    cases e with
+    | beginScope u =>
+      simp only [List.cons_append, scopeOpenedOK] at ha ⊢
+      exact ih b (u :: s) ha (scopeOpenedOK_mono b s (u :: s) (fun x hx => List.mem_cons_of_mem _ hx) hb)
+    | endScope u =>
+      simp only [List.cons_append, scopeOpenedOK, Bool.and_eq_true] at ha ⊢
+      exact ⟨ha.1, ih b s ha.2 hb⟩
+    | _ => simp only [List.cons_append, scopeOpenedOK] at ha ⊢; exact ih b s ha hb
+
+theorem scopeClosedOK_append : ∀ (a b : List (Prim Lbl)),
+    scopeClosedOK a = true → scopeClosedOK b = true → scopeClosedOK (a ++ b) = true := by
+  intro a
+  induction a with
+  | nil => intro b _ hb; exact hb
+  | cons e r ih =>
+    intro b ha hb
+    cases e with
+    | beginScope u =>
+      simp only [List.cons_append, scopeClosedOK, Bool.and_eq_true, List.contains_iff_mem] at ha ⊢
+      exact ⟨List.mem_append_left _ ha.1, ih b ha.2 hb⟩
+    | _ => simp only [List.cons_append, scopeClosedOK] at ha ⊢; exact ih b ha hb
+
+/-! ### the invariant -/
+
+/-- invariant of a generated piece `r = g c`: `ext` are the labels it may target without defining them
+    (the labels of the enclosing loop, the end label of the enclosing template, …) -/
+structure Inv (ext : List Lbl) (c : Nat) (r : List (Prim Lbl) × Nat) : Prop where
   mono : c ≤ r.2
   prim : ∀ e ∈ r.1, e.isPrimitive = true
-  tgt : ∀ e ∈ r.1, ∀ l ∈ e.targets, Prim.label l ∈ r.1 ∨ InCb cb l
-  plain : ∀ e ∈ r.1, Plain e
-  /-- fresh-label lemma: every label defined by the expansion carries a counter value drawn during this expansion -/
+  tgt : ∀ e ∈ r.1, ∀ l ∈ e.targets, Prim.label l ∈ r.1 ∨ l ∈ ext
+  /-- fresh-label lemma: every label defined by the piece carries a counter value drawn while generating it -/
   fresh : ∀ l, Prim.label l ∈ r.1 → c ≤ l.2 ∧ l.2 < r.2
+  mf : mergeForkOK [] r.1 = true
+  so : scopeOpenedOK [] r.1 = true
+  sc : scopeClosedOK r.1 = true
 
-theorem inv_nil (cb : Option (Lbl × Lbl)) (c : Nat) : Inv cb c ([], c) :=
-  ⟨Nat.le_refl _, by simp, by simp, by simp, by simp⟩
+def GenOK (ext : List Lbl) (g : Gen) : Prop := ∀ c, Inv ext c (g c)
 
-theorem inv_append (cb : Option (Lbl × Lbl)) (c c1 c2 : Nat) (a b : List (Prim Lbl))
-    (ha : Inv cb c (a, c1)) (hb : Inv cb c1 (b, c2)) : Inv cb c (a ++ b, c2) := by
+theorem inv_nil (ext : List Lbl) (c : Nat) : Inv ext c ([], c) :=
+  ⟨Nat.le_refl _, by simp, by simp, by simp, rfl, rfl, rfl⟩
+
+theorem inv_append (ext : List Lbl) (c c1 c2 : Nat) (a b : List (Prim Lbl))
+    (ha : Inv ext c (a, c1)) (hb : Inv ext c1 (b, c2)) : Inv ext c (a ++ b, c2) := by
   have m1 := ha.mono; have m2 := hb.mono
   simp only at m1 m2
-  refine ⟨by simp only; omega, ?_, ?_, ?_, ?_⟩
+  refine ⟨by simp only; omega, ?_, ?_, ?_, mergeForkOK_append _ _ _ ha.mf hb.mf, scopeOpenedOK_append _ _ _ ha.so hb.so,
+    scopeClosedOK_append _ _ ha.sc hb.sc⟩
   · intro e he
     rcases List.mem_append.1 he with he | he
     · exact ha.prim e he
@@ -41,337 +123,813 @@ theorem inv_append (cb : Option (Lbl × Lbl)) (c c1 c2 : Nat) (a b : List (Prim 
     · rcases hb.tgt e he l hl with h | h
       · exact Or.inl (List.mem_append_right _ h)
       · exact Or.inr h
-  · intro e he
-    rcases List.mem_append.1 he with he | he
-    · exact ha.plain e he
-    · exact hb.plain e he
   · intro l hl
     rcases List.mem_append.1 hl with hl | hl
     · have := ha.fresh l hl; simp only at this ⊢; omega
     · have := hb.fresh l hl; simp only at this ⊢; omega
 
-/-- a single element that is primitive, defines no label and only targets the enclosing loop's labels -/
-theorem inv_single (cb : Option (Lbl × Lbl)) (c : Nat) (e : Prim Lbl) (hp : e.isPrimitive = true)
-    (ht : ∀ l ∈ e.targets, InCb cb l) (hpl : Plain e) (hnl : ∀ l, e ≠ .label l) : Inv cb c ([e], c) := by
-  refine ⟨Nat.le_refl _, ?_, ?_, ?_, ?_⟩
-  · intro x hx; simp at hx; subst hx; exact hp
+theorem inv_ext_mono (ext ext' : List Lbl) (h : ∀ l ∈ ext, l ∈ ext') (c : Nat) (r : List (Prim Lbl) × Nat)
+    (hr : Inv ext c r) : Inv ext' c r :=
+  ⟨hr.mono, hr.prim, fun e he l hl => (hr.tgt e he l hl).imp id (h l), hr.fresh, hr.mf, hr.so, hr.sc⟩
+
+/-- the counter may have advanced further (uids drawn and not used for labels) -/
+theorem inv_widen (ext : List Lbl) (c0 c c1 c2 : Nat) (p : List (Prim Lbl)) (h : Inv ext c (p, c1)) (h0 : c0 ≤ c) (h2 : c1 ≤ c2) :
+    Inv ext c0 (p, c2) := by
+  have m := h.mono; simp only at m
+  exact ⟨by simp only; omega, h.prim, h.tgt, fun l hl => by have := h.fresh l hl; simp only at this ⊢; omega, h.mf, h.so, h.sc⟩
+
+/-- elements that carry no label, no target and no fork / merge / scope bookkeeping -/
+def leaf (e : Prim Lbl) : Bool :=
+  match e with
+  | .specOp op g rv => !g && !rv && (op == "send" || op == "match" || op == "_new_action_instance")
+  | .assign nld => !nld
+  | .other _ => true
+  | .ret => true
+  | .abort => true
+  | .waitHeads _ => true
+  | _ => false
+
+theorem leaf_checks : ∀ (ps : List (Prim Lbl)) (s : List Lbl), ps.all leaf = true →
+    mergeForkOK s ps = true ∧ scopeOpenedOK s ps = true ∧ scopeClosedOK ps = true := by
+  intro ps
+  induction ps with
+  | nil => intro s _; exact ⟨rfl, rfl, rfl⟩
+  | cons e r ih =>
+    intro s h
+    simp only [List.all_cons, Bool.and_eq_true] at h
+    have := ih s h.2
+    cases e <;> simp [leaf] at h <;> simp [mergeForkOK, scopeOpenedOK, scopeClosedOK, this]
+
+theorem inv_leaves (ext : List Lbl) (c : Nat) (ps : List (Prim Lbl)) (h : ps.all leaf = true) : Inv ext c (ps, c) := by
+  have hl : ∀ e ∈ ps, leaf e = true := by simpa [List.all_eq_true] using h
+  obtain ⟨h1, h2, h3⟩ := leaf_checks ps [] h
+  refine ⟨Nat.le_refl _, ?_, ?_, ?_, h1, h2, h3⟩
+  · intro e he; have := hl e he; cases e <;> simp [leaf] at this <;> simp [Prim.isPrimitive, this]
+  · intro e he l hl'; have := hl e he; cases e <;> simp [leaf] at this <;> simp [Prim.targets] at hl'
+  · intro l hl'; have := hl _ hl'; simp [leaf] at this
+
+theorem genConst_ok (ext : List Lbl) (ps : List (Prim Lbl)) (h : ps.all leaf = true) : GenOK ext (genConst ps) :=
+  fun c => inv_leaves ext c ps h
+
+theorem all_leaf_append (a b : List (Prim Lbl)) (ha : a.all leaf = true) (hb : b.all leaf = true) :
+    (a ++ b).all leaf = true := by simp [List.all_append, ha, hb]
+
+theorem startAtom_leaf (k : AtomK) : (startAtom k).all leaf = true := by cases k <;> decide
+
+theorem startAll_leaf : ∀ (cl : Clause), (startAll cl).all leaf = true := by
+  intro cl
+  induction cl with
+  | nil => rfl
+  | cons a r ih =>
+    have : startAll (a :: r) = startAtom a.k ++ startAll r := by simp [startAll]
+    rw [this]; exact all_leaf_append _ _ (startAtom_leaf _) ih
+
+theorem replicate_leaf (n : Nat) (e : Prim Lbl) (h : leaf e = true) : (List.replicate n e).all leaf = true := by
+  simp [List.all_eq_true]; exact Or.inr h
+
+theorem refAssigns_leaf (cl : Clause) : (refAssigns cl).all leaf = true := by
+  simp [refAssigns, List.all_eq_true, pAssign, leaf]
+
+/-! ### Part 2: the fork / merge / wait templates -/
+
+theorem itemLabels_spec (pre : Nat → String) (b : Nat) : ∀ (n i : Nat),
+    (itemLabels pre b i n).length = n ∧ ∀ l ∈ itemLabels pre b i n, b + i ≤ l.2 ∧ l.2 < b + i + n := by
+  intro n
+  induction n with
+  | zero => intro i; simp [itemLabels]
+  | succ n ih =>
+    intro i
+    obtain ⟨h1, h2⟩ := ih (i + 1)
+    refine ⟨by simp [itemLabels, h1], ?_⟩
+    intro l hl
+    simp only [itemLabels, List.mem_cons] at hl
+    rcases hl with hl | hl
+    · subst hl; simp only; omega
+    · have := h2 l hl; omega
+
+structure ItemsInv (ext : List Lbl) (e : Lbl) (ls : List Lbl) (c : Nat) (r : List (Prim Lbl) × Nat) : Prop where
+  mono : c ≤ r.2
+  prim : ∀ x ∈ r.1, x.isPrimitive = true
+  tgt : ∀ x ∈ r.1, ∀ l ∈ x.targets, Prim.label l ∈ r.1 ∨ l = e ∨ l ∈ ext
+  defd : ∀ l ∈ ls, Prim.label l ∈ r.1
+  fresh : ∀ l, Prim.label l ∈ r.1 → l ∈ ls ∨ (c ≤ l.2 ∧ l.2 < r.2)
+  mf : ∀ s, mergeForkOK s r.1 = true
+  so : ∀ s, scopeOpenedOK s r.1 = true
+  sc : scopeClosedOK r.1 = true
+
+theorem forkItems_inv (ext : List Lbl) (e : Lbl) : ∀ (ls : List Lbl) (gens : List Gen) (c : Nat),
+    ls.length = gens.length → (∀ g ∈ gens, GenOK ext g) → ItemsInv ext e ls c (forkItems e ls gens c) := by
+  intro ls
+  induction ls with
+  | nil =>
+    intro gens c _ _
+    cases gens <;> exact ⟨Nat.le_refl _, by simp [forkItems], by simp [forkItems], by simp, by simp [forkItems],
+      fun _ => rfl, fun _ => rfl, rfl⟩
+  | cons l ls ih =>
+    intro gens c hlen hg
+    cases gens with
+    | nil => simp at hlen
+    | cons g gs =>
+      simp only [forkItems, List.cons_append]
+      have ha := hg g (by simp) c
+      have hr := ih gs (g c).2 (by simpa using hlen) (fun g' hg' => hg g' (List.mem_cons_of_mem _ hg'))
+      have m1 := ha.mono; have m2 := hr.mono
+      refine ⟨by simp only; omega, ?_, ?_, ?_, ?_, ?_, ?_, ?_⟩
+      · intro x hx
+        simp only [List.mem_cons, List.mem_append] at hx
+        rcases hx with rfl | hx | rfl | hx
+        · rfl
+        · exact ha.prim x hx
+        · rfl
+        · exact hr.prim x hx
+      · intro x hx t ht
+        simp only [List.mem_cons, List.mem_append] at hx ⊢
+        rcases hx with rfl | hx | rfl | hx
+        · simp [Prim.targets] at ht
+        · rcases ha.tgt x hx t ht with h | h
+          · exact Or.inl (Or.inr (Or.inl h))
+          · exact Or.inr (Or.inr h)
+        · simp [Prim.targets] at ht; exact Or.inr (Or.inl ht)
+        · rcases hr.tgt x hx t ht with h | h
+          · exact Or.inl (Or.inr (Or.inr (Or.inr h)))
+          · exact Or.inr h
+      · intro t ht
+        simp only [List.mem_cons, List.mem_append] at ht ⊢
+        rcases ht with rfl | ht
+        · exact Or.inl rfl
+        · exact Or.inr (Or.inr (Or.inr (hr.defd t ht)))
+      · intro t ht
+        simp only [List.mem_cons, List.mem_append] at ht ⊢
+        rcases ht with ht | ht | ht | ht
+        · cases ht; exact Or.inl (Or.inl rfl)
+        · have := ha.fresh t ht; exact Or.inr (by omega)
+        · cases ht
+        · rcases hr.fresh t ht with h | h
+          · exact Or.inl (Or.inr h)
+          · exact Or.inr (by omega)
+      · intro s
+        simp only [mergeForkOK]
+        apply mergeForkOK_append _ _ _ (mergeForkOK_mono _ [] s (by simp) ha.mf)
+        simp only [mergeForkOK]; exact hr.mf s
+      · intro s
+        simp only [scopeOpenedOK]
+        apply scopeOpenedOK_append _ _ _ (scopeOpenedOK_mono _ [] s (by simp) ha.so)
+        simp only [scopeOpenedOK]; exact hr.so s
+      · simp only [scopeClosedOK]
+        apply scopeClosedOK_append _ _ ha.sc
+        simp only [scopeClosedOK]; exact hr.sc
+
+theorem header_prim (v : Variant) (u f s : Lbl) (ls : List Lbl) : ∀ x ∈ header v u f s ls, x.isPrimitive = true := by
+  cases v <;> simp [header, Prim.isPrimitive]
+
+theorem header_tgt (v : Variant) (u f s : Lbl) (ls : List Lbl) :
+    ∀ x ∈ header v u f s ls, ∀ l ∈ x.targets, l = f ∨ l ∈ ls := by
+  cases v <;> simp [header, Prim.targets] <;> exact ⟨fun a b h => Or.inl h, fun a b h => Or.inr h⟩
+
+theorem header_nolabel (v : Variant) (u f s : Lbl) (ls : List Lbl) (l : Lbl) : Prim.label l ∉ header v u f s ls := by
+  cases v <;> simp [header]
+
+theorem trailer_prim (v : Variant) (u f e s : Lbl) (n : Nat) : ∀ x ∈ trailer v u f e s n, x.isPrimitive = true := by
+  cases v <;> simp [trailer, Prim.isPrimitive]
+
+theorem trailer_tgt (v : Variant) (u f e s : Lbl) (n : Nat) : ∀ x ∈ trailer v u f e s n, x.targets = [] := by
+  cases v <;> simp [trailer, Prim.targets]
+
+theorem trailer_labels (v : Variant) (u f e s : Lbl) (n : Nat) (l : Lbl) :
+    Prim.label l ∈ trailer v u f e s n ↔ l = f ∨ l = e := by
+  cases v <;> simp [trailer]
+
+theorem template_mf (v : Variant) (u f e s : Lbl) (ls : List Lbl) (n : Nat) (items : List (Prim Lbl))
+    (hi : ∀ t, mergeForkOK t items = true) : mergeForkOK [] (header v u f s ls ++ items ++ trailer v u f e s n) = true := by
+  cases v <;> simp only [header, List.nil_append, List.cons_append, List.append_assoc, mergeForkOK] <;>
+    apply mergeForkOK_append _ _ _ (hi _) <;> simp [trailer, mergeForkOK]
+
+theorem template_so (v : Variant) (u f e s : Lbl) (ls : List Lbl) (n : Nat) (items : List (Prim Lbl))
+    (hi : ∀ t, scopeOpenedOK t items = true) : scopeOpenedOK [] (header v u f s ls ++ items ++ trailer v u f e s n) = true := by
+  cases v <;> simp only [header, List.nil_append, List.cons_append, List.append_assoc, scopeOpenedOK] <;>
+    apply scopeOpenedOK_append _ _ _ (hi _) <;> simp [trailer, scopeOpenedOK]
+
+theorem template_sc (v : Variant) (u f e s : Lbl) (ls : List Lbl) (n : Nat) (items : List (Prim Lbl))
+    (hi : scopeClosedOK items = true) : scopeClosedOK (header v u f s ls ++ items ++ trailer v u f e s n) = true := by
+  cases v
+  · simp only [header, List.nil_append, List.cons_append, List.append_assoc, scopeClosedOK]
+    exact scopeClosedOK_append _ _ hi (by simp [trailer, scopeClosedOK])
+  · simp only [header, List.nil_append, List.cons_append, List.append_assoc, scopeClosedOK]
+    exact scopeClosedOK_append _ _ hi (by simp [trailer, scopeClosedOK])
+  · simp only [header, List.nil_append, List.cons_append, List.append_assoc, scopeClosedOK, Bool.and_eq_true,
+      List.contains_iff_mem]
+    exact ⟨by simp [trailer], scopeClosedOK_append _ _ hi (by simp [trailer, scopeClosedOK])⟩
+
+theorem forkTemplate_ok (ext : List Lbl) (v : Variant) (pre : Nat → String) (gens : List Gen)
+    (hg : ∀ g ∈ gens, GenOK ext g) : GenOK ext (forkTemplate v pre gens) := by
+  intro c
+  unfold forkTemplate
+  obtain ⟨hlen, hrange⟩ := itemLabels_spec pre (c + 4) gens.length 0
+  have hi := forkItems_inv ext ("end_label_", c + 2) (itemLabels pre (c + 4) 0 gens.length) gens (c + 4 + gens.length) hlen hg
+  have m := hi.mono
+  refine ⟨by simp only; omega, ?_, ?_, ?_, template_mf _ _ _ _ _ _ _ _ hi.mf, template_so _ _ _ _ _ _ _ _ hi.so,
+    template_sc _ _ _ _ _ _ _ _ hi.sc⟩
+  · intro x hx
+    simp only [List.mem_append] at hx
+    rcases hx with (hx | hx) | hx
+    · exact header_prim _ _ _ _ _ x hx
+    · exact hi.prim x hx
+    · exact trailer_prim _ _ _ _ _ _ x hx
+  · intro x hx l hl
+    simp only [List.mem_append] at hx ⊢
+    rcases hx with (hx | hx) | hx
+    · rcases header_tgt _ _ _ _ _ x hx l hl with h | h
+      · exact Or.inl (Or.inr ((trailer_labels _ _ _ _ _ _ _).2 (Or.inl h)))
+      · exact Or.inl (Or.inl (Or.inr (hi.defd l h)))
+    · rcases hi.tgt x hx l hl with h | h | h
+      · exact Or.inl (Or.inl (Or.inr h))
+      · exact Or.inl (Or.inr ((trailer_labels _ _ _ _ _ _ _).2 (Or.inr h)))
+      · exact Or.inr h
+    · rw [trailer_tgt _ _ _ _ _ _ x hx] at hl; simp at hl
+  · intro l hl
+    simp only [List.mem_append] at hl
+    rcases hl with (hl | hl) | hl
+    · exact absurd hl (header_nolabel _ _ _ _ _ _)
+    · rcases hi.fresh l hl with h | h
+      · have := hrange l h; simp only; omega
+      · simp only at h ⊢; omega
+    · rcases (trailer_labels _ _ _ _ _ _ _).1 hl with h | h <;> subst h <;> simp only <;> omega
+
+/-! ### Part 3: groups -/
+
+theorem matchClause_ok (ext : List Lbl) (n : Nat) : GenOK ext (matchClause n) := by
+  unfold matchClause
+  split
+  · exact genConst_ok ext _ (by decide)
+  · apply forkTemplate_ok
+    intro g hg
+    rw [List.mem_replicate] at hg
+    rw [hg.2]; exact genConst_ok _ _ (by decide)
+
+theorem orGroup_ok (ext : List Lbl) (v : Variant) (bodies : List Gen) (h : ∀ g ∈ bodies, GenOK ext g) :
+    GenOK ext (orGroup v bodies) := by
+  unfold orGroup
+  split
+  · exact h _ (by simp)
+  · exact forkTemplate_ok ext v _ _ h
+
+theorem matchGroup_ok (ext : List Lbl) (d : List Nat) : GenOK ext (matchGroup d) := by
+  apply orGroup_ok; intro g hg; simp only [List.mem_map] at hg; obtain ⟨n, _, rfl⟩ := hg; exact matchClause_ok ext n
+
+theorem sendGroup_ok (ext : List Lbl) (d : List Nat) : GenOK ext (sendGroup d) := by
+  apply orGroup_ok; intro g hg; simp only [List.mem_map] at hg; obtain ⟨n, _, rfl⟩ := hg
+  exact genConst_ok ext _ (replicate_leaf n _ (by decide))
+
+theorem startGroup_ok (ext : List Lbl) (d : DNF) : GenOK ext (startGroup d) := by
+  apply orGroup_ok; intro g hg; simp only [List.mem_map] at hg; obtain ⟨cl, _, rfl⟩ := hg
+  exact genConst_ok ext _ (startAll_leaf cl)
+
+theorem awaitClause_ok (ext : List Lbl) (cl : Clause) : GenOK ext (awaitClause cl) := by
+  intro c
+  unfold awaitClause
+  have h1 := inv_leaves ext c (startAll cl) (startAll_leaf cl)
+  have h2 := matchClause_ok ext cl.length c
+  have h3 := inv_leaves ext (matchClause cl.length c).2 (refAssigns cl) (refAssigns_leaf cl)
+  exact inv_append _ _ _ _ _ _ (inv_append _ _ _ _ _ _ h1 h2) h3
+
+theorem awaitGroup_ok (ext : List Lbl) (d : DNF) : GenOK ext (awaitGroup d) := by
+  apply orGroup_ok; intro g hg; simp only [List.mem_map] at hg; obtain ⟨cl, _, rfl⟩ := hg
+  exact awaitClause_ok ext cl
+
+theorem whenClause_ok (ext : List Lbl) (cl : Clause) : GenOK ext (whenClause cl) := by
+  intro c
+  unfold whenClause
+  have h1 := inv_leaves ext c (startAll (cl.filter fun a => a.k != .ev)) (startAll_leaf _)
+  have h2 := matchClause_ok ext cl.length c
+  have h3 : ((if (cl.filter fun a => a.k != .ev).isEmpty then [] else refAssigns (cl.filter fun a => a.k != .ev)) : List (Prim Lbl)).all leaf = true := by
+    split
+    · rfl
+    · exact refAssigns_leaf _
+  exact inv_append _ _ _ _ _ _ (inv_append _ _ _ _ _ _ h1 h2) (inv_leaves ext _ _ h3)
+
+/-! ### Part 4: `when` — pieces that live inside the statement's scope `("scope_", S)` and cases fork `u` -/
+
+structure WInv (ext : List Lbl) (S : Nat) (u : Lbl) (c : Nat) (r : List (Prim Lbl) × Nat) : Prop where
+  mono : c ≤ r.2
+  prim : ∀ e ∈ r.1, e.isPrimitive = true
+  tgt : ∀ e ∈ r.1, ∀ l ∈ e.targets, Prim.label l ∈ r.1 ∨ l ∈ ext
+  fresh : ∀ l, Prim.label l ∈ r.1 → l.2 = S ∨ (c ≤ l.2 ∧ l.2 < r.2)
+  mf : ∀ s, u ∈ s → mergeForkOK s r.1 = true
+  so : ∀ s, ("scope_", S) ∈ s → scopeOpenedOK s r.1 = true
+  sc : scopeClosedOK r.1 = true
+
+theorem winv_of_inv (ext : List Lbl) (S : Nat) (u : Lbl) (c : Nat) (r : List (Prim Lbl) × Nat) (h : Inv ext c r) :
+    WInv ext S u c r :=
+  ⟨h.mono, h.prim, h.tgt, fun l hl => Or.inr (h.fresh l hl), fun s _ => mergeForkOK_mono _ [] s (by simp) h.mf,
+    fun s _ => scopeOpenedOK_mono _ [] s (by simp) h.so, h.sc⟩
+
+theorem winv_append (ext : List Lbl) (S : Nat) (u : Lbl) (c c1 c2 : Nat) (a b : List (Prim Lbl))
+    (ha : WInv ext S u c (a, c1)) (hb : WInv ext S u c1 (b, c2)) : WInv ext S u c (a ++ b, c2) := by
+  have m1 := ha.mono; have m2 := hb.mono
+  simp only at m1 m2
+  refine ⟨by simp only; omega, ?_, ?_, ?_, fun s hs => mergeForkOK_append _ _ _ (ha.mf s hs) (hb.mf s hs),
+    fun s hs => scopeOpenedOK_append _ _ _ (ha.so s hs) (hb.so s hs), scopeClosedOK_append _ _ ha.sc hb.sc⟩
+  · intro e he
+    rcases List.mem_append.1 he with he | he
+    · exact ha.prim e he
+    · exact hb.prim e he
+  · intro e he l hl
+    rcases List.mem_append.1 he with he | he
+    · rcases ha.tgt e he l hl with h | h
+      · exact Or.inl (List.mem_append_left _ h)
+      · exact Or.inr h
+    · rcases hb.tgt e he l hl with h | h
+      · exact Or.inl (List.mem_append_right _ h)
+      · exact Or.inr h
+  · intro l hl
+    rcases List.mem_append.1 hl with hl | hl
+    · rcases ha.fresh l hl with h | h
+      · exact Or.inl h
+      · simp only at h ⊢; exact Or.inr (by omega)
+    · rcases hb.fresh l hl with h | h
+      · exact Or.inl h
+      · simp only at h ⊢; exact Or.inr (by omega)
+
+/-- targets may also be resolved by labels that the surrounding piece defines -/
+theorem winv_ext (ext ext' : List Lbl) (S : Nat) (u : Lbl) (c : Nat) (r : List (Prim Lbl) × Nat)
+    (h : WInv ext S u c r) (hsub : ∀ l ∈ ext, l ∈ ext') : WInv ext' S u c r :=
+  ⟨h.mono, h.prim, fun e he l hl => (h.tgt e he l hl).imp id (hsub l), h.fresh, h.mf, h.so, h.sc⟩
+
+/-- a concrete chunk of the template: labels carry the statement uid, merges name the cases fork, scopes the statement scope -/
+def chunkOK (S : Nat) (u : Lbl) (e : Prim Lbl) : Prop :=
+  match e with
+  | .merge u' => u' = u
+  | .endScope n => n = ("scope_", S)
+  | .label l => l.2 = S
+  | .fork _ _ => False
+  | .beginScope _ => False
+  | _ => True
+
+theorem chunk_checks (S : Nat) (u : Lbl) : ∀ (ps : List (Prim Lbl)), (∀ e ∈ ps, chunkOK S u e) →
+    (∀ s, u ∈ s → mergeForkOK s ps = true) ∧ (∀ s, ("scope_", S) ∈ s → scopeOpenedOK s ps = true) ∧ scopeClosedOK ps = true := by
+  intro ps
+  induction ps with
+  | nil => intro _; exact ⟨fun _ _ => rfl, fun _ _ => rfl, rfl⟩
+  | cons e r ih =>
+    intro h
+    obtain ⟨i1, i2, i3⟩ := ih (fun x hx => h x (List.mem_cons_of_mem _ hx))
+    have he := h e (by simp)
+    cases e <;> simp only [chunkOK] at he <;>
+      simp only [mergeForkOK, scopeOpenedOK, scopeClosedOK, Bool.and_eq_true, List.contains_iff_mem] <;>
+      first
+        | exact ⟨i1, i2, i3⟩
+        | exact ⟨fun s hs => ⟨he ▸ hs, i1 s hs⟩, i2, i3⟩
+        | exact ⟨i1, fun s hs => ⟨he ▸ hs, i2 s hs⟩, i3⟩
+        | exact absurd he id
+
+theorem winv_chunk (ext : List Lbl) (S : Nat) (u : Lbl) (c : Nat) (ps : List (Prim Lbl))
+    (hp : ∀ x ∈ ps, x.isPrimitive = true) (ht : ∀ x ∈ ps, ∀ l ∈ x.targets, Prim.label l ∈ ps ∨ l ∈ ext)
+    (hk : ∀ x ∈ ps, chunkOK S u x) : WInv ext S u c (ps, c) := by
+  obtain ⟨h1, h2, h3⟩ := chunk_checks S u ps hk
+  exact ⟨Nat.le_refl _, hp, ht, fun l hl => Or.inl (hk _ hl), h1, h2, h3⟩
+
+theorem winv_resolve (a : Lbl) (ext : List Lbl) (S : Nat) (u : Lbl) (c : Nat) (r : List (Prim Lbl) × Nat)
+    (h : WInv (a :: ext) S u c r) (ha : Prim.label a ∈ r.1) : WInv ext S u c r :=
+  ⟨h.mono, h.prim, fun e he l hl => by
+      rcases h.tgt e he l hl with h1 | h1
+      · exact Or.inl h1
+      · rcases List.mem_cons.1 h1 with h1 | h1
+        · exact Or.inl (h1 ▸ ha)
+        · exact Or.inr h1, h.fresh, h.mf, h.so, h.sc⟩
+
+theorem winv_fork (ext : List Lbl) (S : Nat) (u gu : Lbl) (gl : List Lbl) (c : Nat) (r : List (Prim Lbl) × Nat)
+    (h : WInv ext S u c r) (hd : ∀ l ∈ gl, Prim.label l ∈ r.1 ∨ l ∈ ext) : WInv ext S u c (.fork gu gl :: r.1, r.2) := by
+  refine ⟨h.mono, ?_, ?_, ?_, ?_, ?_, ?_⟩
+  · intro e he; rcases List.mem_cons.1 he with he | he
+    · subst he; rfl
+    · exact h.prim e he
+  · intro e he l hl
+    rcases List.mem_cons.1 he with he | he
+    · subst he; simp only [Prim.targets] at hl
+      exact (hd l hl).imp (List.mem_cons_of_mem _) id
+    · exact (h.tgt e he l hl).imp (List.mem_cons_of_mem _) id
+  · intro l hl
+    rcases List.mem_cons.1 hl with hl | hl
+    · cases hl
+    · exact h.fresh l hl
+  · intro s hs; simp only [mergeForkOK]; exact h.mf (gu :: s) (List.mem_cons_of_mem _ hs)
+  · intro s hs; simp only [scopeOpenedOK]; exact h.so s hs
+  · simp only [scopeClosedOK]; exact h.sc
+
+theorem groupLabelsOf_mem (S i : Nat) : ∀ (n g : Nat) (l : Lbl), l ∈ groupLabelsOf S i g n →
+    ∃ k, g ≤ k ∧ k < g + n ∧ l = ("group_" ++ caseLetter i ++ "_" ++ toString k ++ "_label_", S) := by
+  intro n
+  induction n with
+  | zero => intro g l h; simp [groupLabelsOf] at h
+  | succ n ih =>
+    intro g l h
+    simp only [groupLabelsOf, List.mem_cons] at h
+    rcases h with h | h
+    · exact ⟨g, Nat.le_refl _, by omega, h⟩
+    · obtain ⟨k, h1, h2, h3⟩ := ih (g + 1) l h
+      exact ⟨k, by omega, by omega, h3⟩
+
+/-- the groups of a case -/
+theorem whenGroups_inv (ext : List Lbl) (S : Nat) (u : Lbl) (i ng : Nat) (thenG : Gen) (hthen : GenOK ext thenG) :
+    ∀ (cls : List Clause) (g c : Nat),
+      WInv (("when_end_label_", S) :: ("when_else_label_", S) :: ext) S u c (whenGroups S u i ng thenG g cls c) ∧
+      (∀ k, g ≤ k → k < g + cls.length →
+        Prim.label ("group_" ++ caseLetter i ++ "_" ++ toString k ++ "_label_", S) ∈ (whenGroups S u i ng thenG g cls c).1) ∧
+      (cls ≠ [] → Prim.label ("failure_case_" ++ caseLetter i ++ "_label_", S) ∈ (whenGroups S u i ng thenG g cls c).1) := by
+  intro cls
+  induction cls with
+  | nil =>
+    intro g c
+    refine ⟨⟨Nat.le_refl _, by simp [whenGroups], by simp [whenGroups], by simp [whenGroups], fun _ _ => rfl, fun _ _ => rfl, rfl⟩,
+      ?_, by simp⟩
+    intro k h1 h2; simp at h2; omega
+  | cons cl cls ih =>
+    intro g c
+    simp only [whenGroups]
+    have hsub : ∀ l ∈ ext, l ∈ ("when_end_label_", S) :: ("when_else_label_", S) :: ext :=
+      fun l hl => List.mem_cons_of_mem _ (List.mem_cons_of_mem _ hl)
+    obtain ⟨ihw, ihd, _⟩ := ih (g + 1) (thenG (whenClause cl c).2).2
+    have A := winv_chunk (("when_end_label_", S) :: ("when_else_label_", S) :: ext) S u c
+      [.label ("group_" ++ caseLetter i ++ "_" ++ toString g ++ "_label_", S)]
+      (by simp [Prim.isPrimitive]) (by simp [Prim.targets]) (by simp [chunkOK])
+    have B := winv_of_inv _ S u c _ (whenClause_ok (("when_end_label_", S) :: ("when_else_label_", S) :: ext) cl c)
+    have C1 := winv_chunk (("when_end_label_", S) :: ("when_else_label_", S) :: ext) S u (whenClause cl c).2
+      [.goto ("case_" ++ caseLetter i ++ "_label_", S), .label ("case_" ++ caseLetter i ++ "_label_", S), .merge u, .catchFail none,
+       .endScope ("scope_", S)]
+      (by simp [Prim.isPrimitive]) (by simp [Prim.targets]) (by simp [chunkOK])
+    have D := winv_ext _ _ S u _ _ (winv_of_inv ext S u _ _ (hthen (whenClause cl c).2)) hsub
+    have C2 := winv_chunk (("when_end_label_", S) :: ("when_else_label_", S) :: ext) S u (thenG (whenClause cl c).2).2
+      [.goto ("when_end_label_", S), .label ("failure_case_" ++ caseLetter i ++ "_label_", S), .waitHeads ng, .catchFail none,
+       .goto ("when_else_label_", S)]
+      (by simp [Prim.isPrimitive]) (by simp [Prim.targets]) (by simp [chunkOK])
+    refine ⟨winv_append _ _ _ _ _ _ _ _ (winv_append _ _ _ _ _ _ _ _ (winv_append _ _ _ _ _ _ _ _
+      (winv_append _ _ _ _ _ _ _ _ (winv_append _ _ _ _ _ _ _ _ A B) C1) D) C2) ihw, ?_, ?_⟩
+    · intro k h1 h2
+      by_cases hk : k = g
+      · subst hk; simp
+      · have := ihd k (by omega) (by simp at h2; omega)
+        simp only [List.mem_append]; exact Or.inr this
+    · intro _; simp
+
+theorem whenElse_inv (ext : List Lbl) (S : Nat) (u : Lbl) (ncases : Nat) (hasElse : Bool) (elseG : Gen)
+    (helse : GenOK ext elseG) (c : Nat) :
+    WInv ext S u c (whenElse S u ncases hasElse elseG c) ∧
+    Prim.label ("when_else_label_", S) ∈ (whenElse S u ncases hasElse elseG c).1 ∧
+    Prim.label ("when_end_label_", S) ∈ (whenElse S u ncases hasElse elseG c).1 ∧
+    Prim.endScope ("scope_", S) ∈ (whenElse S u ncases hasElse elseG c).1 := by
+  unfold whenElse
+  have A := winv_chunk ext S u c [.label ("when_else_label_", S), .waitHeads ncases, .merge u, .endScope ("scope_", S)]
+    (by simp [Prim.isPrimitive]) (by simp [Prim.targets]) (by simp [chunkOK])
+  cases hasElse with
+  | false =>
+    simp only [Bool.false_eq_true, if_false]
+    have B := winv_chunk ext S u c [.abort] (by simp [Prim.isPrimitive]) (by simp [Prim.targets]) (by simp [chunkOK])
+    have C := winv_chunk ext S u c [.label ("when_end_label_", S)] (by simp [Prim.isPrimitive]) (by simp [Prim.targets]) (by simp [chunkOK])
+    exact ⟨winv_append _ _ _ _ _ _ _ _ (winv_append _ _ _ _ _ _ _ _ A B) C, by simp, by simp, by simp⟩
+  | true =>
+    simp only [if_true]
+    have B := winv_chunk ext S u c [.goto ("when_else_statement_label_", S), .label ("when_else_statement_label_", S)]
+      (by simp [Prim.isPrimitive]) (by simp [Prim.targets]) (by simp [chunkOK])
+    have D := winv_of_inv ext S u c _ (helse c)
+    have C := winv_chunk ext S u (elseG c).2 [.label ("when_end_label_", S)] (by simp [Prim.isPrimitive]) (by simp [Prim.targets]) (by simp [chunkOK])
+    exact ⟨winv_append _ _ _ _ _ _ _ _ (winv_append _ _ _ _ _ _ _ _ A (winv_append _ _ _ _ _ _ _ _ B D)) C, by simp, by simp, by simp⟩
+
+theorem whenCase_inv (ext : List Lbl) (S : Nat) (u : Lbl) (i ncases : Nat) (gu : Lbl) (d : DNF) (hd : d ≠ []) (hasElse : Bool)
+    (thenG elseG : Gen) (hthen : GenOK ext thenG) (helse : GenOK ext elseG) (c : Nat) :
+    WInv ext S u c (whenCase S u i ncases gu d hasElse thenG elseG c) ∧
+    Prim.label ("init_case_" ++ caseLetter i ++ "_label_", S) ∈ (whenCase S u i ncases gu d hasElse thenG elseG c).1 ∧
+    Prim.endScope ("scope_", S) ∈ (whenCase S u i ncases gu d hasElse thenG elseG c).1 := by
+  unfold whenCase
+  obtain ⟨gw, gd, gf⟩ := whenGroups_inv ext S u i d.length thenG hthen d 0 c
+  obtain ⟨ew, e1, e2, e3⟩ := whenElse_inv ext S u ncases hasElse elseG helse (whenGroups S u i d.length thenG 0 d c).2
+  have hsub2 : ∀ l ∈ ("when_end_label_", S) :: ("when_else_label_", S) :: ext, l ∈ ("failure_case_" ++ caseLetter i ++ "_label_", S) :: ("when_end_label_", S) :: ("when_else_label_", S) :: ext :=
+    fun l hl => List.mem_cons_of_mem _ hl
+  have hsub1 : ∀ l ∈ ext, l ∈ ("failure_case_" ++ caseLetter i ++ "_label_", S) :: ("when_end_label_", S) :: ("when_else_label_", S) :: ext :=
+    fun l hl => List.mem_cons_of_mem _ (List.mem_cons_of_mem _ (List.mem_cons_of_mem _ hl))
+  have body := winv_append _ _ _ _ _ _ _ _ (winv_ext _ _ S u _ _ gw hsub2) (winv_ext _ _ S u _ _ ew hsub1)
+  have t1 := winv_fork _ S u gu (groupLabelsOf S i 0 d.length) c _ body (by
+    intro l hl
+    obtain ⟨k, h1, h2, h3⟩ := groupLabelsOf_mem S i d.length 0 l hl
+    subst h3
+    exact Or.inl (List.mem_append_left _ (gd k h1 (by omega))))
+  have hdr := winv_chunk (("failure_case_" ++ caseLetter i ++ "_label_", S) :: ("when_end_label_", S) :: ("when_else_label_", S) :: ext) S u c
+    [.label ("init_case_" ++ caseLetter i ++ "_label_", S), .catchFail (some ("failure_case_" ++ caseLetter i ++ "_label_", S))]
+    (by simp [Prim.isPrimitive]) (by simp [Prim.targets]) (by simp [chunkOK])
+  have all := winv_append _ _ _ _ _ _ _ _ hdr t1
+  have r1 := winv_resolve ("failure_case_" ++ caseLetter i ++ "_label_", S) _ S u c _ all
+    (List.mem_append_right _ (List.mem_cons_of_mem _ (List.mem_append_left _ (gf hd))))
+  have r2 := winv_resolve ("when_end_label_", S) _ S u c _ r1
+    (List.mem_append_right _ (List.mem_cons_of_mem _ (List.mem_append_right _ e2)))
+  have r3 := winv_resolve ("when_else_label_", S) _ S u c _ r2
+    (List.mem_append_right _ (List.mem_cons_of_mem _ (List.mem_append_right _ e1)))
+  refine ⟨r3, List.mem_cons_self, ?_⟩
+  exact List.mem_cons_of_mem _ (List.mem_cons_of_mem _ (List.mem_cons_of_mem _ (List.mem_append_right _ e3)))
+
+theorem initLabelsOf_mem (S : Nat) : ∀ (n i : Nat) (l : Lbl), l ∈ initLabelsOf S i n →
+    ∃ k, i ≤ k ∧ k < i + n ∧ l = ("init_case_" ++ caseLetter k ++ "_label_", S) := by
+  intro n
+  induction n with
+  | zero => intro i l h; simp [initLabelsOf] at h
+  | succ n ih =>
+    intro i l h
+    simp only [initLabelsOf, List.mem_cons] at h
+    rcases h with h | h
+    · exact ⟨i, Nat.le_refl _, by omega, h⟩
+    · obtain ⟨k, h1, h2, h3⟩ := ih (i + 1) l h
+      exact ⟨k, by omega, by omega, h3⟩
+
+theorem expandCases_inv (ext : List Lbl) (cb : Option (Lbl × Lbl)) (S : Nat) (u : Lbl) (ncases : Nat) (hasElse : Bool)
+    (elseG : Gen) (helse : GenOK ext elseG) :
+    ∀ (thens : List (List Stmt)) (specs : List DNF) (i c : Nat), specs.length = thens.length → (∀ d ∈ specs, d ≠ []) →
+      (∀ t ∈ thens, GenOK ext (fun k => expand cb t k)) →
+      WInv ext S u c (expandCases cb S u ncases hasElse elseG i specs thens c) ∧
+      (∀ k, i ≤ k → k < i + specs.length →
+        Prim.label ("init_case_" ++ caseLetter k ++ "_label_", S) ∈ (expandCases cb S u ncases hasElse elseG i specs thens c).1) ∧
+      (specs ≠ [] → Prim.endScope ("scope_", S) ∈ (expandCases cb S u ncases hasElse elseG i specs thens c).1) := by
+  intro thens
+  induction thens with
+  | nil =>
+    intro specs i c hlen _ _
+    cases specs with
+    | cons d ds => simp at hlen
+    | nil =>
+      unfold expandCases
+      refine ⟨⟨Nat.le_refl _, by simp, by simp, by simp, fun _ _ => rfl, fun _ _ => rfl, rfl⟩, ?_, by simp⟩
+      intro k h1 h2; simp at h2; omega
+  | cons t ts ih =>
+    intro specs i c hlen hd ht
+    cases specs with
+    | nil => simp at hlen
+    | cons d ds =>
+      unfold expandCases
+      obtain ⟨cw, ci, ce⟩ := whenCase_inv ext S u i ncases ("", S + 2 + i) d (hd d (by simp)) hasElse (fun k => expand cb t k) elseG
+        (ht t (by simp)) helse c
+      obtain ⟨rw', ri, _⟩ := ih ds (i + 1) (whenCase S u i ncases ("", S + 2 + i) d hasElse (fun k => expand cb t k) elseG c).2
+        (by simpa using hlen) (fun d' hd' => hd d' (List.mem_cons_of_mem _ hd')) (fun t' ht' => ht t' (List.mem_cons_of_mem _ ht'))
+      refine ⟨winv_append _ _ _ _ _ _ _ _ cw rw', ?_, fun _ => List.mem_append_left _ ce⟩
+      intro k h1 h2
+      by_cases hk : k = i
+      · subst hk; exact List.mem_append_left _ ci
+      · exact List.mem_append_right _ (ri k (by omega) (by simp at h2; omega))
+
+/-- the whole `when` statement -/
+theorem when_inv (ext : List Lbl) (cb : Option (Lbl × Lbl)) (specs : List DNF) (thens : List (List Stmt)) (hasElse : Bool)
+    (elseG : Gen) (helse : GenOK ext elseG) (hne : specs ≠ []) (hlen : specs.length = thens.length) (hd : ∀ d ∈ specs, d ≠ [])
+    (ht : ∀ t ∈ thens, GenOK ext (fun k => expand cb t k)) (c : Nat) :
+    Inv ext c ([.beginScope ("scope_", c), .fork ("", c + 1) (initLabelsOf c 0 specs.length)] ++
+        (expandCases cb c ("", c + 1) specs.length hasElse elseG 0 specs thens (c + 2 + specs.length)).1,
+      (expandCases cb c ("", c + 1) specs.length hasElse elseG 0 specs thens (c + 2 + specs.length)).2) := by
+  obtain ⟨w, wi, we⟩ := expandCases_inv ext cb c ("", c + 1) specs.length hasElse elseG helse thens specs 0 (c + 2 + specs.length) hlen hd ht
+  have m := w.mono
+  refine ⟨by simp only; omega, ?_, ?_, ?_, ?_, ?_, ?_⟩
+  · intro e he
+    simp only [List.cons_append, List.nil_append, List.mem_cons] at he
+    rcases he with rfl | rfl | he
+    · rfl
+    · rfl
+    · exact w.prim e he
+  · intro e he l hl
+    simp only [List.cons_append, List.nil_append, List.mem_cons] at he ⊢
+    rcases he with rfl | rfl | he
+    · simp [Prim.targets] at hl
+    · simp only [Prim.targets] at hl
+      obtain ⟨k, h1, h2, h3⟩ := initLabelsOf_mem c specs.length 0 l hl
+      subst h3
+      exact Or.inl (Or.inr (Or.inr (wi k h1 h2)))
+    · exact (w.tgt e he l hl).imp (fun h => Or.inr (Or.inr h)) id
+  · intro l hl
+    simp only [List.cons_append, List.nil_append, List.mem_cons] at hl
+    rcases hl with hl | hl | hl
+    · cases hl
+    · cases hl
+    · rcases w.fresh l hl with h | h
+      · simp only; omega
+      · simp only at h ⊢; omega
+  · simp only [List.cons_append, List.nil_append, mergeForkOK]; exact w.mf _ (by simp)
+  · simp only [List.cons_append, List.nil_append, scopeOpenedOK]; exact w.so _ (by simp)
+  · simp only [List.cons_append, List.nil_append, scopeClosedOK, Bool.and_eq_true, List.contains_iff_mem]
+    exact ⟨List.mem_cons_of_mem _ (we hne), w.sc⟩
+
+/-! ### Part 5: control flow -/
+
+theorem inv_resolve (a : Lbl) (ext : List Lbl) (c : Nat) (r : List (Prim Lbl) × Nat)
+    (h : Inv (a :: ext) c r) (ha : Prim.label a ∈ r.1) : Inv ext c r :=
+  ⟨h.mono, h.prim, fun e he l hl => by
+      rcases h.tgt e he l hl with h1 | h1
+      · exact Or.inl h1
+      · rcases List.mem_cons.1 h1 with h1 | h1
+        · exact Or.inl (h1 ▸ ha)
+        · exact Or.inr h1, h.fresh, h.mf, h.so, h.sc⟩
+
+/-- gotos and labels around a body: `pre ++ body ++ post` where `pre`, `post` only hold `goto` / `label` elements whose
+    label uids lie in `[c, c0)` and whose targets are in `ext'` -/
+theorem inv_frame (ext' : List Lbl) (c c0 : Nat) (pre post : List (Prim Lbl)) (body : List (Prim Lbl) × Nat)
+    (hb : Inv ext' c0 body) (hc : c ≤ c0)
+    (hpre : ∀ e ∈ pre ++ post, (∃ l, e = .goto l ∧ l ∈ ext') ∨ (∃ l, e = .label l ∧ c ≤ l.2 ∧ l.2 < body.2)) :
+    Inv ext' c (pre ++ body.1 ++ post, body.2) := by
+  have m := hb.mono
+  have chk : ∀ (ps : List (Prim Lbl)), (∀ e ∈ ps, (∃ l, e = Prim.goto l ∧ l ∈ ext') ∨ (∃ l, e = Prim.label l ∧ c ≤ l.2 ∧ l.2 < body.2)) →
+      ∀ s, mergeForkOK s ps = true ∧ scopeOpenedOK s ps = true ∧ scopeClosedOK ps = true := by
+    intro ps
+    induction ps with
+    | nil => intro _ s; exact ⟨rfl, rfl, rfl⟩
+    | cons e r ih =>
+      intro h s
+      have := ih (fun x hx => h x (List.mem_cons_of_mem _ hx)) s
+      rcases h e (by simp) with ⟨l, rfl, _⟩ | ⟨l, rfl, _⟩ <;> simpa [mergeForkOK, scopeOpenedOK, scopeClosedOK] using this
+  have cpre := chk pre (fun e he => hpre e (List.mem_append_left _ he))
+  have cpost := chk post (fun e he => hpre e (List.mem_append_right _ he))
+  refine ⟨by simp only; omega, ?_, ?_, ?_, ?_, ?_, ?_⟩
+  · intro e he
+    simp only [List.mem_append] at he
+    rcases he with (he | he) | he
+    · rcases hpre e (List.mem_append_left _ he) with ⟨l, rfl, _⟩ | ⟨l, rfl, _⟩ <;> rfl
+    · exact hb.prim e he
+    · rcases hpre e (List.mem_append_right _ he) with ⟨l, rfl, _⟩ | ⟨l, rfl, _⟩ <;> rfl
+  · intro e he t ht
+    simp only [List.mem_append] at he ⊢
+    rcases he with (he | he) | he
+    · rcases hpre e (List.mem_append_left _ he) with ⟨l, rfl, hl⟩ | ⟨l, rfl, _⟩
+      · simp [Prim.targets] at ht; subst ht; exact Or.inr hl
+      · simp [Prim.targets] at ht
+    · exact (hb.tgt e he t ht).imp (fun h => Or.inl (Or.inr h)) id
+    · rcases hpre e (List.mem_append_right _ he) with ⟨l, rfl, hl⟩ | ⟨l, rfl, _⟩
+      · simp [Prim.targets] at ht; subst ht; exact Or.inr hl
+      · simp [Prim.targets] at ht
+  · intro t ht
+    simp only [List.mem_append] at ht
+    rcases ht with (ht | ht) | ht
+    · rcases hpre _ (List.mem_append_left _ ht) with ⟨l, h, _⟩ | ⟨l, h, h1, h2⟩
+      · cases h
+      · cases h; simp only; omega
+    · have := hb.fresh t ht; simp only at this ⊢; omega
+    · rcases hpre _ (List.mem_append_right _ ht) with ⟨l, h, _⟩ | ⟨l, h, h1, h2⟩
+      · cases h
+      · cases h; simp only; omega
+  · exact mergeForkOK_append _ _ _ (mergeForkOK_append _ _ _ (cpre []).1 hb.mf) (cpost []).1
+  · exact scopeOpenedOK_append _ _ _ (scopeOpenedOK_append _ _ _ (cpre []).2.1 hb.so) (cpost []).2.1
+  · exact scopeClosedOK_append _ _ (scopeClosedOK_append _ _ (cpre []).2.2 hb.sc) (cpost []).2.2
+
+theorem inv_jump (ext : List Lbl) (c : Nat) (e : Prim Lbl) (he : (∃ o, e = .brk o) ∨ (∃ o, e = .cont o))
+    (ht : ∀ l ∈ e.targets, l ∈ ext) : Inv ext c ([e], c) := by
+  refine ⟨Nat.le_refl _, ?_, ?_, ?_, ?_, ?_, ?_⟩
+  · intro x hx; simp at hx; subst hx; rcases he with ⟨o, rfl⟩ | ⟨o, rfl⟩ <;> rfl
   · intro x hx l hl; simp at hx; subst hx; exact Or.inr (ht l hl)
-  · intro x hx; simp at hx; subst hx; exact hpl
-  · intro l hl; simp at hl; exact absurd hl.symm (hnl l)
+  · intro l hl; simp at hl; rcases he with ⟨o, rfl⟩ | ⟨o, rfl⟩ <;> cases hl
+  · rcases he with ⟨o, rfl⟩ | ⟨o, rfl⟩ <;> rfl
+  · rcases he with ⟨o, rfl⟩ | ⟨o, rfl⟩ <;> rfl
+  · rcases he with ⟨o, rfl⟩ | ⟨o, rfl⟩ <;> rfl
 
-theorem plain_label (l : Lbl) : Plain (.label l) := (by refine ⟨?_, ?_, ?_⟩ <;> intro u h <;> cases h)
-theorem plain_goto (l : Lbl) : Plain (.goto l) := (by refine ⟨?_, ?_, ?_⟩ <;> intro u h <;> cases h)
-
-theorem while_inv (cb : Option (Lbl × Lbl)) (c : Nat) (body : List (Prim Lbl) × Nat)
-    (hb : Inv (some (("_while_begin_", c), ("_while_end_", c))) (c + 1) body) :
-    Inv cb c ([.label ("_while_begin_", c), .goto ("_while_end_", c)] ++ body.1 ++
+theorem while_inv (ext : List Lbl) (c : Nat) (body : List (Prim Lbl) × Nat)
+    (hb : Inv [("_while_begin_", c), ("_while_end_", c)] (c + 1) body) :
+    Inv ext c ([.label ("_while_begin_", c), .goto ("_while_end_", c)] ++ body.1 ++
       [.goto ("_while_begin_", c), .label ("_while_end_", c)], body.2) := by
   have m := hb.mono
-  refine ⟨by simp only; omega, ?_, ?_, ?_, ?_⟩
-  · intro e he
-    simp only [List.mem_append, List.mem_cons, List.not_mem_nil, or_false] at he
-    rcases he with (((rfl | rfl) | he) | (rfl | rfl))
-    · rfl
-    · rfl
-    · exact hb.prim e he
-    · rfl
-    · rfl
-  · intro e he l hl
-    left
-    simp only [List.mem_append, List.mem_cons, List.not_mem_nil, or_false] at he ⊢
-    rcases he with (((rfl | rfl) | he) | (rfl | rfl))
-    · simp [Prim.targets] at hl
-    · simp [Prim.targets] at hl; subst hl; simp
-    · rcases hb.tgt e he l hl with h | ⟨b, e', hcb, h⟩
-      · exact Or.inl (Or.inr h)
-      · simp only [Option.some.injEq, Prod.mk.injEq] at hcb
-        obtain ⟨rfl, rfl⟩ := hcb
-        rcases h with rfl | rfl
-        · simp
-        · simp
-    · simp [Prim.targets] at hl; subst hl; simp
-    · simp [Prim.targets] at hl
-  · intro e he
-    simp only [List.mem_append, List.mem_cons, List.not_mem_nil, or_false] at he
-    rcases he with (((rfl | rfl) | he) | (rfl | rfl))
-    · exact plain_label _
-    · exact plain_goto _
-    · exact hb.plain e he
-    · exact plain_goto _
-    · exact plain_label _
-  · intro l hl
-    simp only [List.mem_append, List.mem_cons, List.not_mem_nil, or_false] at hl
-    rcases hl with (((h | h) | h) | (h | h))
-    · cases h; simp only; omega
-    · cases h
-    · have := hb.fresh l h; simp only at this ⊢; omega
-    · cases h
-    · cases h; simp only; omega
+  have f := inv_frame [("_while_begin_", c), ("_while_end_", c)] c (c + 1)
+    [.label ("_while_begin_", c), .goto ("_while_end_", c)] [.goto ("_while_begin_", c), .label ("_while_end_", c)] body hb (by omega)
+    (by
+      intro e he
+      simp only [List.cons_append, List.nil_append, List.mem_cons, List.not_mem_nil, or_false] at he
+      rcases he with rfl | rfl | rfl | rfl
+      · exact Or.inr ⟨_, rfl, by simp only; omega⟩
+      · exact Or.inl ⟨_, rfl, by simp⟩
+      · exact Or.inl ⟨_, rfl, by simp⟩
+      · exact Or.inr ⟨_, rfl, by simp only; omega⟩)
+  have r1 := inv_resolve _ _ _ _ f (by simp)
+  have r2 := inv_resolve _ _ _ _ r1 (by simp)
+  exact inv_ext_mono [] ext (by simp) _ _ r2
 
-theorem if_inv_noelse (cb : Option (Lbl × Lbl)) (c : Nat) (te : List (Prim Lbl) × Nat) (ht : Inv cb (c + 2) te) :
-    Inv cb c ([.goto ("if_end_label_", c + 1)] ++ te.1 ++ [.label ("if_end_label_", c + 1)], te.2) := by
+theorem if_inv_noelse (ext : List Lbl) (c : Nat) (te : List (Prim Lbl) × Nat) (ht : Inv ext (c + 2) te) :
+    Inv ext c ([.goto ("if_end_label_", c + 1)] ++ te.1 ++ [.label ("if_end_label_", c + 1)], te.2) := by
   have m := ht.mono
-  refine ⟨by simp only; omega, ?_, ?_, ?_, ?_⟩
-  · intro e he
-    simp only [List.mem_append, List.mem_cons, List.not_mem_nil, or_false] at he
-    rcases he with ((rfl | he) | rfl)
-    · rfl
-    · exact ht.prim e he
-    · rfl
-  · intro e he l hl
-    simp only [List.mem_append, List.mem_cons, List.not_mem_nil, or_false] at he ⊢
-    rcases he with ((rfl | he) | rfl)
-    · simp [Prim.targets] at hl; subst hl; simp
-    · rcases ht.tgt e he l hl with h | h
-      · exact Or.inl (Or.inl (Or.inr h))
-      · exact Or.inr h
-    · simp [Prim.targets] at hl
-  · intro e he
-    simp only [List.mem_append, List.mem_cons, List.not_mem_nil, or_false] at he
-    rcases he with ((rfl | he) | rfl)
-    · exact plain_goto _
-    · exact ht.plain e he
-    · exact plain_label _
-  · intro l hl
-    simp only [List.mem_append, List.mem_cons, List.not_mem_nil, or_false] at hl
-    rcases hl with ((h | h) | h)
-    · cases h
-    · have := ht.fresh l h; simp only at this ⊢; omega
-    · cases h; simp only; omega
+  have f := inv_frame (("if_end_label_", c + 1) :: ext) c (c + 2) [.goto ("if_end_label_", c + 1)] [.label ("if_end_label_", c + 1)] te
+    (inv_ext_mono _ _ (fun l hl => List.mem_cons_of_mem _ hl) _ _ ht) (by omega)
+    (by
+      intro e he
+      simp only [List.cons_append, List.nil_append, List.mem_cons, List.not_mem_nil, or_false] at he
+      rcases he with rfl | rfl
+      · exact Or.inl ⟨_, rfl, by simp⟩
+      · exact Or.inr ⟨_, rfl, by simp only; omega⟩)
+  exact inv_resolve _ _ _ _ f (by simp)
 
-theorem if_inv_else (cb : Option (Lbl × Lbl)) (c : Nat) (te fe : List (Prim Lbl) × Nat) (ht : Inv cb (c + 2) te)
-    (hf : Inv cb te.2 fe) :
-    Inv cb c ([.goto ("if_else_body_label_", c)] ++ te.1 ++
+theorem if_inv_else (ext : List Lbl) (c : Nat) (te fe : List (Prim Lbl) × Nat) (ht : Inv ext (c + 2) te)
+    (hf : Inv ext te.2 fe) :
+    Inv ext c ([.goto ("if_else_body_label_", c)] ++ te.1 ++
       [.goto ("if_end_label_", c + 1), .label ("if_else_body_label_", c)] ++ fe.1 ++ [.label ("if_end_label_", c + 1)], fe.2) := by
   have m1 := ht.mono; have m2 := hf.mono
-  refine ⟨by simp only; omega, ?_, ?_, ?_, ?_⟩
-  · intro e he
-    simp only [List.mem_append, List.mem_cons, List.not_mem_nil, or_false] at he
-    rcases he with ((((rfl | he) | (rfl | rfl)) | he) | rfl)
-    · rfl
-    · exact ht.prim e he
-    · rfl
-    · rfl
-    · exact hf.prim e he
-    · rfl
-  · intro e he l hl
-    simp only [List.mem_append, List.mem_cons, List.not_mem_nil, or_false] at he ⊢
-    rcases he with ((((rfl | he) | (rfl | rfl)) | he) | rfl)
-    · simp [Prim.targets] at hl; subst hl; simp
-    · rcases ht.tgt e he l hl with h | h
-      · exact Or.inl (Or.inl (Or.inl (Or.inl (Or.inr h))))
-      · exact Or.inr h
-    · simp [Prim.targets] at hl; subst hl; simp
-    · simp [Prim.targets] at hl
-    · rcases hf.tgt e he l hl with h | h
-      · exact Or.inl (Or.inl (Or.inr h))
-      · exact Or.inr h
-    · simp [Prim.targets] at hl
-  · intro e he
-    simp only [List.mem_append, List.mem_cons, List.not_mem_nil, or_false] at he
-    rcases he with ((((rfl | he) | (rfl | rfl)) | he) | rfl)
-    · exact plain_goto _
-    · exact ht.plain e he
-    · exact plain_goto _
-    · exact plain_label _
-    · exact hf.plain e he
-    · exact plain_label _
-  · intro l hl
-    simp only [List.mem_append, List.mem_cons, List.not_mem_nil, or_false] at hl
-    rcases hl with ((((h | h) | (h | h)) | h) | h)
-    · cases h
-    · have := ht.fresh l h; simp only at this ⊢; omega
-    · cases h
-    · cases h; simp only; omega
-    · have := hf.fresh l h; simp only at this ⊢; omega
-    · cases h; simp only; omega
+  have hsub : ∀ l ∈ ext, l ∈ ("if_end_label_", c + 1) :: ("if_else_body_label_", c) :: ext :=
+    fun l hl => List.mem_cons_of_mem _ (List.mem_cons_of_mem _ hl)
+  have f1 := inv_frame (("if_end_label_", c + 1) :: ("if_else_body_label_", c) :: ext) c (c + 2)
+    [.goto ("if_else_body_label_", c)] [.goto ("if_end_label_", c + 1), .label ("if_else_body_label_", c)] te
+    (inv_ext_mono _ _ hsub _ _ ht) (by omega)
+    (by
+      intro e he
+      simp only [List.cons_append, List.nil_append, List.mem_cons, List.not_mem_nil, or_false] at he
+      rcases he with rfl | rfl | rfl
+      · exact Or.inl ⟨_, rfl, by simp⟩
+      · exact Or.inl ⟨_, rfl, by simp⟩
+      · exact Or.inr ⟨_, rfl, by simp only; omega⟩)
+  have both := inv_append _ _ _ _ _ _ f1 (inv_ext_mono _ _ hsub _ _ hf)
+  have f2 := inv_frame (("if_end_label_", c + 1) :: ("if_else_body_label_", c) :: ext) c c [] [.label ("if_end_label_", c + 1)]
+    (_, fe.2) both (Nat.le_refl _)
+    (by
+      intro e he
+      simp only [List.nil_append, List.mem_cons, List.not_mem_nil, or_false] at he
+      subst he
+      exact Or.inr ⟨_, rfl, by simp only; omega⟩)
+  have r1 := inv_resolve _ _ _ _ f2 (by simp)
+  exact inv_resolve _ _ _ _ r1 (by simp)
 
-theorem plain_simple (e : Prim Lbl) (h1 : ∀ u, e ≠ .merge u) (h2 : ∀ n, e ≠ .beginScope n) (h3 : ∀ n, e ≠ .endScope n) :
-    Plain e := ⟨h1, h2, h3⟩
+theorem flatten_replicate_leaf (n : Nat) (ps : List (Prim Lbl)) (h : ps.all leaf = true) :
+    (List.replicate n ps).flatten.all leaf = true := by
+  induction n with
+  | zero => rfl
+  | succ n ih => rw [List.replicate_succ, List.flatten_cons]; exact all_leaf_append _ _ h ih
+
+theorem cbList_snd (cb : Option (Lbl × Lbl)) : ∀ l ∈ (Prim.brk (cb.map (·.2)) : Prim Lbl).targets, l ∈ cbList cb := by
+  intro l hl; cases cb with
+  | none => simp [Prim.targets] at hl
+  | some be => obtain ⟨b, e⟩ := be; simp [Prim.targets] at hl; subst hl; simp [cbList]
+
+theorem cbList_fst (cb : Option (Lbl × Lbl)) : ∀ l ∈ (Prim.cont (cb.map (·.1)) : Prim Lbl).targets, l ∈ cbList cb := by
+  intro l hl; cases cb with
+  | none => simp [Prim.targets] at hl
+  | some be => obtain ⟨b, e⟩ := be; simp [Prim.targets] at hl; subst hl; simp [cbList]
 
 mutual
-  theorem expand_inv : ∀ (cb : Option (Lbl × Lbl)) (ss : List Stmt) (c : Nat), Inv cb c (expand cb ss c)
-    | cb, [], c => by unfold expand; exact inv_nil cb c
-    | cb, s :: r, c => by
+  theorem expand_inv : ∀ (cb : Option (Lbl × Lbl)) (ss : List Stmt) (c : Nat), wfList ss = true →
+      Inv (cbList cb) c (expand cb ss c)
+    | cb, [], c, _ => by unfold expand; exact inv_nil _ c
+    | cb, s :: r, c, h => by
+      unfold wfList at h
+      simp only [Bool.and_eq_true] at h
       unfold expand
-      exact inv_append cb c _ _ _ _ (expandStmt_inv cb s c) (expand_inv cb r _)
-  theorem expandStmt_inv : ∀ (cb : Option (Lbl × Lbl)) (s : Stmt) (c : Nat), Inv cb c (expandStmt cb s c)
-    | cb, .send, c => by
+      exact inv_append _ c _ _ _ _ (expandStmt_inv cb s c h.1) (expand_inv cb r _ h.2)
+  theorem expandStmt_inv : ∀ (cb : Option (Lbl × Lbl)) (s : Stmt) (c : Nat), wfStmt s = true →
+      Inv (cbList cb) c (expandStmt cb s c)
+    | cb, .send, c, _ => by unfold expandStmt; exact inv_leaves _ c _ (by decide)
+    | cb, .matchEv, c, _ => by unfold expandStmt; exact inv_leaves _ c _ (by decide)
+    | cb, .assign, c, _ => by unfold expandStmt; exact inv_leaves _ c _ (by decide)
+    | cb, .other k, c, _ => by unfold expandStmt; exact inv_leaves _ c _ (by simp [leaf])
+    | cb, .ret, c, _ => by unfold expandStmt; exact inv_leaves _ c _ (by decide)
+    | cb, .abort, c, _ => by unfold expandStmt; exact inv_leaves _ c _ (by decide)
+    | cb, .brk, c, _ => by unfold expandStmt; exact inv_jump _ c _ (Or.inl ⟨_, rfl⟩) (cbList_snd cb)
+    | cb, .cont, c, _ => by unfold expandStmt; exact inv_jump _ c _ (Or.inr ⟨_, rfl⟩) (cbList_fst cb)
+    | cb, .whileS b, c, h => by
+      unfold wfStmt at h
       unfold expandStmt
-      exact inv_single cb c _ rfl (by simp [Prim.targets]) (by refine ⟨?_, ?_, ?_⟩ <;> intro u h <;> cases h) (by intro l h; cases h)
-    | cb, .matchEv, c => by
-      unfold expandStmt
-      exact inv_single cb c _ rfl (by simp [Prim.targets]) (by refine ⟨?_, ?_, ?_⟩ <;> intro u h <;> cases h) (by intro l h; cases h)
-    | cb, .assign, c => by
-      unfold expandStmt
-      exact inv_single cb c _ rfl (by simp [Prim.targets]) (by refine ⟨?_, ?_, ?_⟩ <;> intro u h <;> cases h) (by intro l h; cases h)
-    | cb, .other k, c => by
-      unfold expandStmt
-      exact inv_single cb c _ rfl (by simp [Prim.targets]) (by refine ⟨?_, ?_, ?_⟩ <;> intro u h <;> cases h) (by intro l h; cases h)
-    | cb, .ret, c => by
-      unfold expandStmt
-      exact inv_single cb c _ rfl (by simp [Prim.targets]) (by refine ⟨?_, ?_, ?_⟩ <;> intro u h <;> cases h) (by intro l h; cases h)
-    | cb, .abort, c => by
-      unfold expandStmt
-      exact inv_single cb c _ rfl (by simp [Prim.targets]) (by refine ⟨?_, ?_, ?_⟩ <;> intro u h <;> cases h) (by intro l h; cases h)
-    | cb, .brk, c => by
-      unfold expandStmt
-      refine inv_single cb c _ rfl ?_ (by refine ⟨?_, ?_, ?_⟩ <;> intro u h <;> cases h) (by intro l h; cases h)
-      intro l hl
-      cases cb with
-      | none => simp [Prim.targets] at hl
-      | some be => simp [Prim.targets] at hl; exact ⟨be.1, be.2, rfl, Or.inr hl⟩
-    | cb, .cont, c => by
-      unfold expandStmt
-      refine inv_single cb c _ rfl ?_ (by refine ⟨?_, ?_, ?_⟩ <;> intro u h <;> cases h) (by intro l h; cases h)
-      intro l hl
-      cases cb with
-      | none => simp [Prim.targets] at hl
-      | some be => simp [Prim.targets] at hl; exact ⟨be.1, be.2, rfl, Or.inl hl⟩
-    | cb, .whileS b, c => by
-      unfold expandStmt
-      exact while_inv cb c _ (expand_inv _ b (c + 1))
-    | cb, .ifS t f, c => by
+      exact while_inv _ c _ (expand_inv (some (("_while_begin_", c), ("_while_end_", c))) b (c + 1) h)
+    | cb, .ifS t f, c, h => by
+      unfold wfStmt at h
+      simp only [Bool.and_eq_true] at h
       unfold expandStmt
       by_cases hf : f.isEmpty = true
       · simp only [hf, if_true]
-        exact if_inv_noelse cb c _ (expand_inv cb t (c + 2))
+        exact if_inv_noelse _ c _ (expand_inv cb t (c + 2) h.1)
       · simp only [hf]
-        exact if_inv_else cb c _ _ (expand_inv cb t (c + 2)) (expand_inv cb f _)
-end
-
-/-! ### distinct labels -/
-
-theorem mem_labelsOf (l : Lbl) : ∀ (p : List (Prim Lbl)), l ∈ labelsOf p ↔ Prim.label l ∈ p := by
-  intro p
-  induction p with
-  | nil => simp [labelsOf]
-  | cons e r ih =>
-    cases e with
-    | label n =>
-      simp only [labelsOf, List.mem_cons, ih]
-      constructor
-      · rintro (h | h)
-        · left; rw [h]
-        · right; exact h
-      · rintro (h | h)
-        · left; cases h; rfl
-        · right; exact h
-    | _ => simp [labelsOf, ih]
-
-theorem labelsOf_append (a b : List (Prim Lbl)) : labelsOf (a ++ b) = labelsOf a ++ labelsOf b := by
-  induction a with
-  | nil => rfl
-  | cons e r ih => cases e <;> simp [labelsOf, ih]
-
-/-- labels of two consecutive expansions cannot collide: their counter ranges are disjoint -/
-theorem nodup_append_of_ranges (a b : List (Prim Lbl)) (c c1 c2 : Nat)
-    (ha : (labelsOf a).Nodup) (hb : (labelsOf b).Nodup)
-    (fa : ∀ l, Prim.label l ∈ a → c ≤ l.2 ∧ l.2 < c1) (fb : ∀ l, Prim.label l ∈ b → c1 ≤ l.2 ∧ l.2 < c2) :
-    (labelsOf (a ++ b)).Nodup := by
-  rw [labelsOf_append, List.nodup_append]
-  refine ⟨ha, hb, ?_⟩
-  intro x hx y hy hxy
-  subst hxy
-  have h1 := fa x ((mem_labelsOf x a).1 hx)
-  have h2 := fb x ((mem_labelsOf x b).1 hy)
-  omega
-
-mutual
-  theorem expand_nodup : ∀ (cb : Option (Lbl × Lbl)) (ss : List Stmt) (c : Nat), (labelsOf (expand cb ss c).1).Nodup
-    | cb, [], c => by unfold expand; simp [labelsOf]
-    | cb, s :: r, c => by
-      unfold expand
-      exact nodup_append_of_ranges _ _ c _ _ (expandStmt_nodup cb s c) (expand_nodup cb r _)
-        (expandStmt_inv cb s c).fresh (expand_inv cb r _).fresh
-  theorem expandStmt_nodup : ∀ (cb : Option (Lbl × Lbl)) (s : Stmt) (c : Nat), (labelsOf (expandStmt cb s c).1).Nodup
-    | cb, .send, c => by unfold expandStmt; simp [labelsOf]
-    | cb, .matchEv, c => by unfold expandStmt; simp [labelsOf]
-    | cb, .assign, c => by unfold expandStmt; simp [labelsOf]
-    | cb, .other k, c => by unfold expandStmt; simp [labelsOf]
-    | cb, .ret, c => by unfold expandStmt; simp [labelsOf]
-    | cb, .abort, c => by unfold expandStmt; simp [labelsOf]
-    | cb, .brk, c => by unfold expandStmt; simp [labelsOf]
-    | cb, .cont, c => by unfold expandStmt; simp [labelsOf]
-    | cb, .whileS b, c => by
+        exact if_inv_else _ c _ _ (expand_inv cb t (c + 2) h.1) (expand_inv cb f _ h.2)
+    | cb, .matchG d, c, _ => by unfold expandStmt; exact matchGroup_ok _ d c
+    | cb, .sendG d, c, _ => by unfold expandStmt; exact sendGroup_ok _ d c
+    | cb, .startS d, c, _ => by unfold expandStmt; exact startGroup_ok _ d c
+    | cb, .awaitOne k rv, c, _ => by
       unfold expandStmt
-      have hb := expand_nodup (some (("_while_begin_", c), ("_while_end_", c))) b (c + 1)
-      have fb := (expand_inv (some (("_while_begin_", c), ("_while_end_", c))) b (c + 1)).fresh
-      have e1 : ∀ body : List (Prim Lbl), labelsOf ([.label ("_while_begin_", c), .goto ("_while_end_", c)] ++ body ++
-          [.goto ("_while_begin_", c), .label ("_while_end_", c)]) = ("_while_begin_", c) :: (labelsOf body ++ [("_while_end_", c)]) := by
-        intro body; simp [labelsOf_append, labelsOf]
-      simp only
-      rw [e1, List.nodup_cons, List.nodup_append]
-      refine ⟨?_, hb, by simp, ?_⟩
-      · intro h
-        rcases List.mem_append.1 h with h | h
-        · have := fb _ ((mem_labelsOf _ _).1 h); simp only at this; omega
-        · simp at h
-      · intro x hx y hy hxy
-        subst hxy
-        have := fb _ ((mem_labelsOf _ _).1 hx)
-        simp only [List.mem_singleton] at hy
-        subst hy; simp only at this; omega
-    | cb, .ifS t f, c => by
+      apply inv_leaves
+      apply all_leaf_append _ _ (all_leaf_append _ _ (startAtom_leaf k) (by decide))
+      cases rv <;> decide
+    | cb, .awaitG d, c, _ => by unfold expandStmt; exact awaitGroup_ok _ d c
+    | cb, .activateS n, c, _ => by unfold expandStmt; exact inv_leaves _ c _ (flatten_replicate_leaf n _ (by decide))
+    | cb, .deactivateS n, c, _ => by unfold expandStmt; exact inv_leaves _ c _ (replicate_leaf n _ (by decide))
+    | cb, .nld, c, _ => by unfold expandStmt; exact inv_leaves _ c _ (by decide)
+    | cb, .whenS specs thens els hasElse, c, h => by
+      unfold wfStmt at h
+      simp only [Bool.and_eq_true, Bool.not_eq_true', beq_iff_eq, List.all_eq_true] at h
+      obtain ⟨⟨⟨⟨h1, h2⟩, h3⟩, h4⟩, h5⟩ := h
       unfold expandStmt
-      have ht := expand_nodup cb t (c + 2)
-      have it := expand_inv cb t (c + 2)
-      by_cases hf : f.isEmpty = true
-      · simp only [hf, if_true]
-        have e1 : ∀ te : List (Prim Lbl), labelsOf ([.goto ("if_end_label_", c + 1)] ++ te ++ [.label ("if_end_label_", c + 1)])
-            = labelsOf te ++ [("if_end_label_", c + 1)] := by
-          intro te; simp [labelsOf_append, labelsOf]
-        rw [e1, List.nodup_append]
-        refine ⟨ht, by simp, ?_⟩
-        intro x hx y hy hxy
-        subst hxy
-        simp only [List.mem_singleton] at hy
-        subst hy
-        have := it.fresh _ ((mem_labelsOf _ _).1 hx); simp only at this; omega
-      · simp only [hf]
-        have hfn := expand_nodup cb f (expand cb t (c + 2)).2
-        have ifn := expand_inv cb f (expand cb t (c + 2)).2
-        have m1 := it.mono
-        have e1 : ∀ te fe : List (Prim Lbl), labelsOf ([.goto ("if_else_body_label_", c)] ++ te ++
-            [.goto ("if_end_label_", c + 1), .label ("if_else_body_label_", c)] ++ fe ++ [.label ("if_end_label_", c + 1)])
-            = labelsOf te ++ (("if_else_body_label_", c) :: (labelsOf fe ++ [("if_end_label_", c + 1)])) := by
-          intro te fe; simp [labelsOf_append, labelsOf]
-        simp only [Bool.false_eq_true, if_false]
-        rw [e1, List.nodup_append, List.nodup_cons, List.nodup_append]
-        refine ⟨ht, ⟨?_, hfn, by simp, ?_⟩, ?_⟩
-        · intro h
-          rcases List.mem_append.1 h with h | h
-          · have := ifn.fresh _ ((mem_labelsOf _ _).1 h); simp only at this; omega
-          · simp at h
-        · intro x hx y hy hxy
-          subst hxy
-          simp only [List.mem_singleton] at hy
-          subst hy
-          have := ifn.fresh _ ((mem_labelsOf _ _).1 hx); simp only at this; omega
-        · intro x hx y hy hxy
-          subst hxy
-          have h1 := it.fresh _ ((mem_labelsOf _ _).1 hx)
-          rcases List.mem_cons.1 hy with hy | hy
-          · subst hy; (try simp at h1) <;> (try omega)
-          · rcases List.mem_append.1 hy with hy | hy
-            · have h2 := ifn.fresh _ ((mem_labelsOf _ _).1 hy); omega
-            · simp only [List.mem_singleton] at hy
-              subst hy; (try simp at h1) <;> (try omega)
+      exact when_inv _ cb specs thens hasElse _ (fun k => expand_inv cb els k h5) (by intro he; simp [he] at h1) h2
+        (fun d hd he => by have := h3 d hd; simp [he] at this) (fun t ht k => expandLists_inv cb thens h4 t ht k) c
+  theorem expandLists_inv : ∀ (cb : Option (Lbl × Lbl)) (ts : List (List Stmt)), wfLists ts = true →
+      ∀ t ∈ ts, ∀ c, Inv (cbList cb) c (expand cb t c)
+    | cb, [], _ => by intro t ht; simp at ht
+    | cb, t0 :: ts, h => by
+      unfold wfLists at h
+      simp only [Bool.and_eq_true] at h
+      intro t ht c
+      rcases List.mem_cons.1 ht with ht | ht
+      · rw [ht]; exact expand_inv cb t0 c h.1
+      · exact expandLists_inv cb ts h.2 t ht c
 end
 
 /-! ### closedness of the expansion of a whole flow -/
 
-theorem closed_of_inv (r : List (Prim Lbl) × Nat) (c : Nat) (h : Inv none c r) : Closed r.1 := by
-  refine ⟨?_, h.prim, ?_, ?_, ?_⟩
-  · intro e he l hl
-    rcases h.tgt e he l hl with h1 | ⟨b, e', hcb, _⟩
+theorem closed_of_inv (r : List (Prim Lbl) × Nat) (c : Nat) (h : Inv [] c r) : Closed r.1 := by
+  apply (closed_iff r.1).1
+  simp only [closed, Bool.and_eq_true]
+  refine ⟨⟨⟨⟨?_, ?_⟩, h.mf⟩, h.so⟩, h.sc⟩
+  · rw [targetsDefined_iff]
+    intro e he l hl
+    rcases h.tgt e he l hl with h1 | h1
     · exact h1
-    · cases hcb
-  · intro pre u post hp
-    exact absurd rfl ((h.plain (.merge u) (by rw [hp]; simp)).1 u)
-  · intro pre n post hp
-    exact absurd rfl ((h.plain (.endScope n) (by rw [hp]; simp)).2.2 n)
-  · intro pre n post hp
-    exact absurd rfl ((h.plain (.beginScope n) (by rw [hp]; simp)).2.1 n)
+    · simp at h1
+  · rw [allPrimitive_iff]; exact h.prim
 
 end NemoVerif.Expand
